@@ -251,6 +251,17 @@ func (p *Prog) relsDepth(f *ssa.Function, depth int) map[*ssa.BasicBlock]relSet 
 				for k := range p.condCallFacts(ifc.Cond, i == 0) {
 					e[k] = true
 				}
+				// a materialised a && b (|| dually), as go/ssa builds for the case expressions of a tagless
+				// switch: the phi is true only through its one non-constant edge, whose operand was true and
+				// whose block was entered on the true edges of the operands before it
+				for _, fc := range shortCircuitFacts(ifc.Cond, i == 0, 0) {
+					if rs, ok := relOf(fc); ok {
+						e[rs] = true
+					}
+					for k := range p.condCallFacts(fc.Cond, fc.Val) {
+						e[k] = true
+					}
+				}
 			}
 			old, ok := in[s]
 			var nw relSet
@@ -981,4 +992,52 @@ func (p *Prog) condCallFactsLocal(call *ssa.Call, callee *ssa.Function, idx int,
 		}
 	}
 	return res
+}
+
+// shortCircuitFacts: the operand facts implied by a materialised short-circuit value. v is a phi with comment
+// "&&" (val true) or "||" (val false): all edges but one carry the short-circuit constant.
+func shortCircuitFacts(v ssa.Value, val bool, depth int) []fact {
+	ph, ok := v.(*ssa.Phi)
+	if !ok || depth > 4 || !(ph.Comment == "&&" && val || ph.Comment == "||" && !val) {
+		return nil
+	}
+	j := -1
+	for i, e := range ph.Edges {
+		if c, isC := e.(*ssa.Const); isC && c.Value != nil && (c.Value.String() == "true") == !val {
+			continue // the short-circuit constant
+		}
+		if j >= 0 {
+			return nil
+		}
+		j = i
+	}
+	if j < 0 {
+		return nil
+	}
+	out := []fact{{Cond: ph.Edges[j], Val: val}}
+	out = append(out, shortCircuitFacts(ph.Edges[j], val, depth+1)...)
+	shortPreds := map[*ssa.BasicBlock]bool{}
+	for i, pr := range ph.Block().Preds {
+		if i != j {
+			shortPreds[pr] = true
+		}
+	}
+	blk := ph.Block().Preds[j]
+	for step := 0; step < 8 && len(blk.Preds) == 1; step++ {
+		pr := blk.Preds[0]
+		ifc, isIf := pr.Instrs[len(pr.Instrs)-1].(*ssa.If)
+		if !isIf || pr.Succs[0] == pr.Succs[1] {
+			break
+		}
+		out = append(out, fact{Cond: ifc.Cond, Val: pr.Succs[0] == blk})
+		if !shortPreds[pr] {
+			break
+		}
+		delete(shortPreds, pr)
+		blk = pr
+		if len(shortPreds) == 0 {
+			break
+		}
+	}
+	return out
 }
